@@ -55,9 +55,15 @@ def scan_forbidden(files=None):
             if not n.endswith('.v'): continue
             p = os.path.join(root, n)
             txt = strip_comments(open(p).read())
+            depth = 0
             for i, line in enumerate(txt.split('\n'), 1):
                 if FORBIDDEN.search(line):
                     hits.append('%s:%d: %s' % (os.path.relpath(p, COQDIR), i, line.strip()))
+                # Variable / Hypothesis / Context outside a Section declare axioms
+                if re.match(r'\s*(Section|Module\s+Type)\s+\w+', line): depth += 1
+                elif re.match(r'\s*End\s+\w+\s*\.', line) and depth > 0: depth -= 1
+                elif depth == 0 and re.match(r'\s*(Variable|Variables|Hypothesis|Hypotheses|Context)\b', line):
+                    hits.append('%s:%d: %s (outside a Section)' % (os.path.relpath(p, COQDIR), i, line.strip()))
     return hits
 
 def strip_comments(txt):
